@@ -259,8 +259,8 @@ var c09Prop = &Prop[c09Case]{ID: "C09", Check: c09Check, Classify: c09Classify}
 func init() { registerReplay(c09Prop) }
 
 func c09Gen(t *rapid.T) c09Case {
-	n := rapid.IntRange(1, 24).Draw(t, "n")
-	nr := rapid.IntRange(1, 6).Draw(t, "nregions")
+	n := drawLen(t, 1, 24, "n")
+	nr := drawCount(t, 1, 6, 20, "nregions")
 	c := c09Case{N: n}
 	coord := rapid.OneOf(rapid.IntRange(0, n), rapid.SampledFrom([]int{0, n, n / 2, 1, n - 1}))
 	for i := 0; i < nr; i++ {
@@ -301,6 +301,10 @@ func TestC09(t *testing.T) {
 	st := newStats("C09")
 	defer st.flush()
 	rapidPart(t, c09Prop, st, "rapid", pick(40000, 400000), c09Gen)
+	if t.Failed() {
+		return
+	}
+	rapidLargePart(t, c09Prop, st, pick(1500, 20000), c09Gen)
 	if t.Failed() {
 		return
 	}
